@@ -100,7 +100,7 @@ __CPROVER_assigns();
 /* two purely linear facts over opaque quantities, used to finish lemma_nday_lift */
 #define lemma_lin_lift_REQ(oRY, oE1, oE, oY, oO1, oO, iE, iO, k0, k1, qc, qd, rc, rd, d0, cd0) \
   ((oRY) == (oE1) && (oE1) == (oE) + (Z)146097 * (k1) && (oY) == (oO1) && (oO1) == (oO) + (Z)146097 * (k0) && \
-   (oE) == (Z)(iE) && (oO) == (Z)(iO) && (iE) == (iO) + ((int)(rc) + (int)(rd)) - 1 && (k1) == (k0) + (Z)(qc) + (Z)(qd) && \
+   (oE) == (Z)(iE) && (oO) == (Z)(iO) && (iE) == (iO) + ((int)(rc) + (int)(rd)) - 1 && -(1 << 24) < (iO) && (iO) < (1 << 24) && (k1) == (k0) + (Z)(qc) + (Z)(qd) && \
    (Z)(cd0) == (Z)146097 * (qc) + (rc) && (Z)(d0) == (Z)146097 * (qd) + (rd) && -146097 < (rc) && (rc) < 146097 && -146097 < (rd) && (rd) < 146097)
 #define lemma_lin_lift_ENS(oRY, oE1, oE, oY, oO1, oO, iE, iO, k0, k1, qc, qd, rc, rd, d0, cd0) \
   ((oRY) == (oY) + (Z)(d0) - 1 + (Z)(cd0))
@@ -197,5 +197,216 @@ fields align_hour(fields f) __CPROVER_ensures(RV.y == f.y && RV.m == f.m && RV.d
 fields align_day(fields f) __CPROVER_ensures(RV.y == f.y && RV.m == f.m && RV.d == f.d && RV.hh == 0 && RV.mm == 0 && RV.ss == 0) __CPROVER_assigns();
 fields align_month(fields f) __CPROVER_ensures(RV.y == f.y && RV.m == f.m && RV.d == 1 && RV.hh == 0 && RV.mm == 0 && RV.ss == 0) __CPROVER_assigns();
 fields align_year(fields f) __CPROVER_ensures(RV.y == f.y && RV.m == 1 && RV.d == 1 && RV.hh == 0 && RV.mm == 0 && RV.ss == 0) __CPROVER_assigns();
+
+/* ---- alignment predicates and unit ordinals (C04, C05) ---- */
+#define ALIGNED_second(f) (1)
+#define ALIGNED_minute(f) ((f).ss == 0)
+#define ALIGNED_hour(f) ((f).ss == 0 && (f).mm == 0)
+#define ALIGNED_day(f) ((f).ss == 0 && (f).mm == 0 && (f).hh == 0)
+#define ALIGNED_month(f) ((f).ss == 0 && (f).mm == 0 && (f).hh == 0 && (f).d == 1)
+#define ALIGNED_year(f) ((f).ss == 0 && (f).mm == 0 && (f).hh == 0 && (f).d == 1 && (f).m == 1)
+#define UNIT_second(f) SECORD_F(f)
+#define UNIT_minute(f) MINORD_F(f)
+#define UNIT_hour(f) HOURORD_F(f)
+#define UNIT_day(f) DAYORD_F(f)
+#define UNIT_month(f) MONORD_F(f)
+#define UNIT_year(f) ((Z)(f).y)
+/* "the result is representable": the year of the unit ordinal u fits in 64 bits */
+#define REPR_second(u) (ORD_MIN <= FD((u), 86400) && FD((u), 86400) <= ORD_MAX)
+#define REPR_minute(u) (ORD_MIN <= FD((u), 1440) && FD((u), 1440) <= ORD_MAX)
+#define REPR_hour(u) (ORD_MIN <= FD((u), 24) && FD((u), 24) <= ORD_MAX)
+#define REPR_day(u) (ORD_MIN <= (u) && (u) <= ORD_MAX)
+#define REPR_month(u) (FITS64(FD((u), 12)))
+#define REPR_year(u) (FITS64(u))
+
+/* construction from six fields (C04): normalise, then truncate to the alignment */
+#define CTOR_COMMON(y, m, d, hh, mm, ss) \
+  __CPROVER_requires(FITS64(NMON_Y1(y, m))) \
+  __CPROVER_requires(ORD_MIN <= NSEC_T(y, m, d, hh, mm, ss) && NSEC_T(y, m, d, hh, mm, ss) <= ORD_MAX)
+fields ct_second_ctor6(year_t y, diff_t m, diff_t d, diff_t hh, diff_t mm, diff_t ss)
+CTOR_COMMON(y, m, d, hh, mm, ss)
+__CPROVER_ensures(VALID_F(RV) && ORD(RV.y, RV.m, RV.d) == NSEC_T(y, m, d, hh, mm, ss))
+__CPROVER_ensures(RV.hh == FM(NSEC_H(hh, mm, ss), 24) && RV.mm == FM(NSEC_M(mm, ss), 60) && RV.ss == FM((Z)ss, 60))
+__CPROVER_assigns();
+fields ct_minute_ctor6(year_t y, diff_t m, diff_t d, diff_t hh, diff_t mm, diff_t ss)
+CTOR_COMMON(y, m, d, hh, mm, ss)
+__CPROVER_ensures(VALID_F(RV) && ORD(RV.y, RV.m, RV.d) == NSEC_T(y, m, d, hh, mm, ss))
+__CPROVER_ensures(RV.hh == FM(NSEC_H(hh, mm, ss), 24) && RV.mm == FM(NSEC_M(mm, ss), 60) && RV.ss == 0)
+__CPROVER_assigns();
+fields ct_hour_ctor6(year_t y, diff_t m, diff_t d, diff_t hh, diff_t mm, diff_t ss)
+CTOR_COMMON(y, m, d, hh, mm, ss)
+__CPROVER_ensures(VALID_F(RV) && ORD(RV.y, RV.m, RV.d) == NSEC_T(y, m, d, hh, mm, ss))
+__CPROVER_ensures(RV.hh == FM(NSEC_H(hh, mm, ss), 24) && RV.mm == 0 && RV.ss == 0)
+__CPROVER_assigns();
+fields ct_day_ctor6(year_t y, diff_t m, diff_t d, diff_t hh, diff_t mm, diff_t ss)
+CTOR_COMMON(y, m, d, hh, mm, ss)
+__CPROVER_ensures(VALID_F(RV) && ORD(RV.y, RV.m, RV.d) == NSEC_T(y, m, d, hh, mm, ss))
+__CPROVER_ensures(RV.hh == 0 && RV.mm == 0 && RV.ss == 0)
+__CPROVER_assigns();
+fields ct_month_ctor6(year_t y, diff_t m, diff_t d, diff_t hh, diff_t mm, diff_t ss)
+CTOR_COMMON(y, m, d, hh, mm, ss)
+__CPROVER_ensures(VALID_F(RV) && ALIGNED_month(RV))
+__CPROVER_ensures(ORD(RV.y, RV.m, 1) <= NSEC_T(y, m, d, hh, mm, ss) && NSEC_T(y, m, d, hh, mm, ss) <= ORD(RV.y, RV.m, DIM(LEAP(RV.y), RV.m)))
+__CPROVER_assigns();
+fields ct_year_ctor6(year_t y, diff_t m, diff_t d, diff_t hh, diff_t mm, diff_t ss)
+CTOR_COMMON(y, m, d, hh, mm, ss)
+__CPROVER_ensures(VALID_F(RV) && ALIGNED_year(RV))
+__CPROVER_ensures(ORD(RV.y, 1, 1) <= NSEC_T(y, m, d, hh, mm, ss) && NSEC_T(y, m, d, hh, mm, ss) <= ORD(RV.y, 12, 31))
+__CPROVER_assigns();
+
+/* ---- C05: step, difference, operators ---- */
+fields step_second(fields f, diff_t n)
+__CPROVER_requires(VALID_F(f) && REPR_second(SECORD_F(f) + n))
+__CPROVER_ensures(VALID_F(RV) && SECORD_F(RV) == SECORD_F(f) + n)
+__CPROVER_assigns();
+fields step_minute(fields f, diff_t n)
+__CPROVER_requires(VALID_F(f) && REPR_minute(MINORD_F(f) + n))
+__CPROVER_ensures(VALID_F(RV) && MINORD_F(RV) == MINORD_F(f) + n && RV.ss == f.ss)
+__CPROVER_assigns();
+fields step_hour(fields f, diff_t n)
+__CPROVER_requires(VALID_F(f) && REPR_hour(HOURORD_F(f) + n))
+__CPROVER_ensures(VALID_F(RV) && HOURORD_F(RV) == HOURORD_F(f) + n && RV.mm == f.mm && RV.ss == f.ss)
+__CPROVER_assigns();
+fields step_day(fields f, diff_t n)
+__CPROVER_requires(VALID_F(f) && REPR_day(DAYORD_F(f) + n))
+__CPROVER_ensures(VALID_F(RV) && DAYORD_F(RV) == DAYORD_F(f) + n && RV.hh == f.hh && RV.mm == f.mm && RV.ss == f.ss)
+__CPROVER_assigns();
+fields step_month(fields f, diff_t n)
+__CPROVER_requires(VALID_F(f) && f.d <= 28 && REPR_month(MONORD_F(f) + n))
+__CPROVER_ensures(VALID_F(RV) && MONORD_F(RV) == MONORD_F(f) + n && RV.d == f.d && RV.hh == f.hh && RV.mm == f.mm && RV.ss == f.ss)
+__CPROVER_assigns();
+fields step_year(fields f, diff_t n)
+__CPROVER_requires(VALID_F(f) && f.d <= 28 && REPR_year((Z)f.y + n))
+__CPROVER_ensures(VALID_F(RV) && (Z)RV.y == (Z)f.y + n && RV.m == f.m && RV.d == f.d && RV.hh == f.hh && RV.mm == f.mm && RV.ss == f.ss)
+__CPROVER_assigns();
+
+diff_t scale_add(diff_t v, diff_t f, diff_t a)
+__CPROVER_requires((f == 12 || f == 24 || f == 60) && -f < a && a < f && FITS64((Z)v * f + a))
+__CPROVER_ensures((Z)RV == (Z)v * f + a)
+__CPROVER_assigns();
+
+diff_t ymd_ord(year_t y, month_t m, day_t d)
+__CPROVER_requires(-400 < y && y < 400 && 1 <= m && m <= 12 && 1 <= d && d <= 31)
+__CPROVER_ensures(RV == ORD_I((int)y, m, d) - 719528)
+__CPROVER_assigns();
+
+diff_t day_difference(year_t y1, month_t m1, day_t d1, year_t y2, month_t m2, day_t d2)
+__CPROVER_requires(1 <= m1 && m1 <= 12 && 1 <= d1 && d1 <= 31 && 1 <= m2 && m2 <= 12 && 1 <= d2 && d2 <= 31)
+__CPROVER_requires(FITS64(ORD(y1, m1, d1) - ORD(y2, m2, d2)))
+__CPROVER_ensures((Z)RV == ORD(y1, m1, d1) - ORD(y2, m2, d2))
+__CPROVER_assigns();
+
+diff_t difference_year(fields f1, fields f2)
+__CPROVER_requires(FITS64((Z)f1.y - (Z)f2.y))
+__CPROVER_ensures((Z)RV == (Z)f1.y - (Z)f2.y)
+__CPROVER_assigns();
+diff_t difference_month(fields f1, fields f2)
+__CPROVER_requires(1 <= f1.m && f1.m <= 12 && 1 <= f2.m && f2.m <= 12 && FITS64(MONORD_F(f1) - MONORD_F(f2)))
+__CPROVER_ensures((Z)RV == MONORD_F(f1) - MONORD_F(f2))
+__CPROVER_assigns();
+diff_t difference_day(fields f1, fields f2)
+__CPROVER_requires(VALID_YMD(f1.y, f1.m, f1.d) && VALID_YMD(f2.y, f2.m, f2.d) && FITS64(DAYORD_F(f1) - DAYORD_F(f2)))
+__CPROVER_ensures((Z)RV == DAYORD_F(f1) - DAYORD_F(f2))
+__CPROVER_assigns();
+diff_t difference_hour(fields f1, fields f2)
+__CPROVER_requires(VALID_F(f1) && VALID_F(f2) && FITS64(HOURORD_F(f1) - HOURORD_F(f2)))
+__CPROVER_ensures((Z)RV == HOURORD_F(f1) - HOURORD_F(f2))
+__CPROVER_assigns();
+diff_t difference_minute(fields f1, fields f2)
+__CPROVER_requires(VALID_F(f1) && VALID_F(f2) && FITS64(MINORD_F(f1) - MINORD_F(f2)))
+__CPROVER_ensures((Z)RV == MINORD_F(f1) - MINORD_F(f2))
+__CPROVER_assigns();
+diff_t difference_second(fields f1, fields f2)
+__CPROVER_requires(VALID_F(f1) && VALID_F(f2) && FITS64(SECORD_F(f1) - SECORD_F(f2)))
+__CPROVER_ensures((Z)RV == SECORD_F(f1) - SECORD_F(f2))
+__CPROVER_assigns();
+
+fields ct_second_plus(fields a, diff_t n)
+__CPROVER_requires(VALID_F(a) && ALIGNED_second(a) && REPR_second(UNIT_second(a) + n))
+__CPROVER_ensures(VALID_F(RV) && ALIGNED_second(RV) && UNIT_second(RV) == UNIT_second(a) + n)
+__CPROVER_assigns();
+fields ct_second_minus(fields a, diff_t n)
+__CPROVER_requires(VALID_F(a) && ALIGNED_second(a) && REPR_second(UNIT_second(a) - n))
+__CPROVER_ensures(VALID_F(RV) && ALIGNED_second(RV) && UNIT_second(RV) == UNIT_second(a) - n)
+__CPROVER_assigns();
+diff_t ct_second_diff(fields lhs, fields rhs)
+__CPROVER_requires(VALID_F(lhs) && ALIGNED_second(lhs) && VALID_F(rhs) && ALIGNED_second(rhs) && FITS64(UNIT_second(lhs) - UNIT_second(rhs)))
+__CPROVER_ensures((Z)RV == UNIT_second(lhs) - UNIT_second(rhs))
+__CPROVER_assigns();
+
+fields ct_minute_plus(fields a, diff_t n)
+__CPROVER_requires(VALID_F(a) && ALIGNED_minute(a) && REPR_minute(UNIT_minute(a) + n))
+__CPROVER_ensures(VALID_F(RV) && ALIGNED_minute(RV) && UNIT_minute(RV) == UNIT_minute(a) + n)
+__CPROVER_assigns();
+fields ct_minute_minus(fields a, diff_t n)
+__CPROVER_requires(VALID_F(a) && ALIGNED_minute(a) && REPR_minute(UNIT_minute(a) - n))
+__CPROVER_ensures(VALID_F(RV) && ALIGNED_minute(RV) && UNIT_minute(RV) == UNIT_minute(a) - n)
+__CPROVER_assigns();
+diff_t ct_minute_diff(fields lhs, fields rhs)
+__CPROVER_requires(VALID_F(lhs) && ALIGNED_minute(lhs) && VALID_F(rhs) && ALIGNED_minute(rhs) && FITS64(UNIT_minute(lhs) - UNIT_minute(rhs)))
+__CPROVER_ensures((Z)RV == UNIT_minute(lhs) - UNIT_minute(rhs))
+__CPROVER_assigns();
+
+fields ct_hour_plus(fields a, diff_t n)
+__CPROVER_requires(VALID_F(a) && ALIGNED_hour(a) && REPR_hour(UNIT_hour(a) + n))
+__CPROVER_ensures(VALID_F(RV) && ALIGNED_hour(RV) && UNIT_hour(RV) == UNIT_hour(a) + n)
+__CPROVER_assigns();
+fields ct_hour_minus(fields a, diff_t n)
+__CPROVER_requires(VALID_F(a) && ALIGNED_hour(a) && REPR_hour(UNIT_hour(a) - n))
+__CPROVER_ensures(VALID_F(RV) && ALIGNED_hour(RV) && UNIT_hour(RV) == UNIT_hour(a) - n)
+__CPROVER_assigns();
+diff_t ct_hour_diff(fields lhs, fields rhs)
+__CPROVER_requires(VALID_F(lhs) && ALIGNED_hour(lhs) && VALID_F(rhs) && ALIGNED_hour(rhs) && FITS64(UNIT_hour(lhs) - UNIT_hour(rhs)))
+__CPROVER_ensures((Z)RV == UNIT_hour(lhs) - UNIT_hour(rhs))
+__CPROVER_assigns();
+
+fields ct_day_plus(fields a, diff_t n)
+__CPROVER_requires(VALID_F(a) && ALIGNED_day(a) && REPR_day(UNIT_day(a) + n))
+__CPROVER_ensures(VALID_F(RV) && ALIGNED_day(RV) && UNIT_day(RV) == UNIT_day(a) + n)
+__CPROVER_assigns();
+fields ct_day_minus(fields a, diff_t n)
+__CPROVER_requires(VALID_F(a) && ALIGNED_day(a) && REPR_day(UNIT_day(a) - n))
+__CPROVER_ensures(VALID_F(RV) && ALIGNED_day(RV) && UNIT_day(RV) == UNIT_day(a) - n)
+__CPROVER_assigns();
+diff_t ct_day_diff(fields lhs, fields rhs)
+__CPROVER_requires(VALID_F(lhs) && ALIGNED_day(lhs) && VALID_F(rhs) && ALIGNED_day(rhs) && FITS64(UNIT_day(lhs) - UNIT_day(rhs)))
+__CPROVER_ensures((Z)RV == UNIT_day(lhs) - UNIT_day(rhs))
+__CPROVER_assigns();
+
+fields ct_month_plus(fields a, diff_t n)
+__CPROVER_requires(VALID_F(a) && ALIGNED_month(a) && REPR_month(UNIT_month(a) + n))
+__CPROVER_ensures(VALID_F(RV) && ALIGNED_month(RV) && UNIT_month(RV) == UNIT_month(a) + n)
+__CPROVER_assigns();
+fields ct_month_minus(fields a, diff_t n)
+__CPROVER_requires(VALID_F(a) && ALIGNED_month(a) && REPR_month(UNIT_month(a) - n))
+__CPROVER_ensures(VALID_F(RV) && ALIGNED_month(RV) && UNIT_month(RV) == UNIT_month(a) - n)
+__CPROVER_assigns();
+diff_t ct_month_diff(fields lhs, fields rhs)
+__CPROVER_requires(VALID_F(lhs) && ALIGNED_month(lhs) && VALID_F(rhs) && ALIGNED_month(rhs) && FITS64(UNIT_month(lhs) - UNIT_month(rhs)))
+__CPROVER_ensures((Z)RV == UNIT_month(lhs) - UNIT_month(rhs))
+__CPROVER_assigns();
+
+fields ct_year_plus(fields a, diff_t n)
+__CPROVER_requires(VALID_F(a) && ALIGNED_year(a) && REPR_year(UNIT_year(a) + n))
+__CPROVER_ensures(VALID_F(RV) && ALIGNED_year(RV) && UNIT_year(RV) == UNIT_year(a) + n)
+__CPROVER_assigns();
+fields ct_year_minus(fields a, diff_t n)
+__CPROVER_requires(VALID_F(a) && ALIGNED_year(a) && REPR_year(UNIT_year(a) - n))
+__CPROVER_ensures(VALID_F(RV) && ALIGNED_year(RV) && UNIT_year(RV) == UNIT_year(a) - n)
+__CPROVER_assigns();
+diff_t ct_year_diff(fields lhs, fields rhs)
+__CPROVER_requires(VALID_F(lhs) && ALIGNED_year(lhs) && VALID_F(rhs) && ALIGNED_year(rhs) && FITS64(UNIT_year(lhs) - UNIT_year(rhs)))
+__CPROVER_ensures((Z)RV == UNIT_year(lhs) - UNIT_year(rhs))
+__CPROVER_assigns();
+
+/* relational operators: lexicographic order on the six fields (works across alignments) */
+#define LEXLT(a, b) ((a).y < (b).y || ((a).y == (b).y && ((a).m < (b).m || ((a).m == (b).m && ((a).d < (b).d || ((a).d == (b).d && \
+                     ((a).hh < (b).hh || ((a).hh == (b).hh && ((a).mm < (b).mm || ((a).mm == (b).mm && (a).ss < (b).ss))))))))))
+bool ct_lt(fields lhs, fields rhs) __CPROVER_ensures(RV == (LEXLT(lhs, rhs) ? 1 : 0)) __CPROVER_assigns();
+bool ct_le(fields lhs, fields rhs) __CPROVER_ensures(RV == (LEXLT(rhs, lhs) ? 0 : 1)) __CPROVER_assigns();
+bool ct_gt(fields lhs, fields rhs) __CPROVER_ensures(RV == (LEXLT(rhs, lhs) ? 1 : 0)) __CPROVER_assigns();
+bool ct_ge(fields lhs, fields rhs) __CPROVER_ensures(RV == (LEXLT(lhs, rhs) ? 0 : 1)) __CPROVER_assigns();
+bool ct_eq(fields lhs, fields rhs) __CPROVER_ensures(RV == (FIELDS_EQ(lhs, rhs) ? 1 : 0)) __CPROVER_assigns();
+bool ct_ne(fields lhs, fields rhs) __CPROVER_ensures(RV == (FIELDS_EQ(lhs, rhs) ? 0 : 1)) __CPROVER_assigns();
 
 #pragma CPROVER check pop
